@@ -80,6 +80,13 @@ def checkFix (case impl : List String) : List Fail := Id.run do
         fails := fails ++ [⟨"corr", layoutTag ++ ",C18", "missing-panic", s!"{tname} obs#{i}: model panics, impl emits"⟩]
         if t = .slit ∧ i = 0 then
           fails := fails ++ [⟨"prop", "C18", "not-refused", s!"slit with {c.num 0} localities: localities² + 44 does not fit the 32-bit Length"⟩]
+        -- the model has no image to compare with, but what C01 and C02 say about an emitted image does
+        -- not need one: whatever the implementation returns must sum to zero and announce its own size
+        if t ≠ .facs ∧ t ≠ .rsdp then
+          if sum8 img ≠ 0 then
+            fails := fails ++ [⟨"prop", "C01", "sum-nonzero", s!"{tname} obs#{i}: image sums to {(sum8 img).toNat} (an operation the model refuses was accepted)"⟩]
+          if readAt img 4 4 ≠ some img.length then
+            fails := fails ++ [⟨"prop", "C02", "length-field", s!"{tname} obs#{i}: Length {(readAt img 4 4).getD 0}, image {img.length} bytes (an operation the model refuses was accepted)"⟩]
         break
       | some s =>
         let m0 := s.image
